@@ -58,20 +58,14 @@ func (b *ProcessLogBuffer) getLogRange(offsetFromEnd, limit int) []string {
 		offsetFromEnd = len(b.buffer)
 	}
 
-	if limit < 1 {
-		limit = 0
-	}
-	if limit > len(b.buffer) {
-		limit = len(b.buffer)
-	}
-	if offsetFromEnd+limit > len(b.buffer) {
-		limit = len(b.buffer) - offsetFromEnd
-	}
-	if limit == 0 {
-		return b.buffer[len(b.buffer)-offsetFromEnd:]
-	}
+	// the window starts offsetFromEnd lines before the end and holds at most limit lines
+	// (all the lines up to the end if limit is not positive), clamped to what exists
 	start := len(b.buffer) - offsetFromEnd
-	return b.buffer[start : start+limit]
+	end := len(b.buffer)
+	if limit >= 1 && limit < end-start {
+		end = start + limit
+	}
+	return b.buffer[start:end]
 }
 
 func (b *ProcessLogBuffer) GetLogLength() int {
